@@ -44,13 +44,13 @@ def NpRule (xs ys r : List Nat) : Prop :=
   ∀ k, (xs.getD k 1 = ys.getD k 1 ∨ xs.getD k 1 = 1 ∨ ys.getD k 1 = 1) ∧
        r.getD k 1 = if xs.getD k 1 = 1 then ys.getD k 1 else xs.getD k 1
 
-private theorem getD_cons_succ (x : Nat) (xs : List Nat) (k : Nat) : (x :: xs).getD (k + 1) 1 = xs.getD k 1 := by
+theorem getD_cons_succ (x : Nat) (xs : List Nat) (k : Nat) : (x :: xs).getD (k + 1) 1 = xs.getD k 1 := by
   simp [List.getD]
 
-private theorem getD_cons_zero (x : Nat) (xs : List Nat) : (x :: xs).getD 0 1 = x := by
+theorem getD_cons_zero (x : Nat) (xs : List Nat) : (x :: xs).getD 0 1 = x := by
   simp [List.getD]
 
-private theorem getD_nil (k : Nat) : ([] : List Nat).getD k 1 = 1 := by
+theorem getD_nil (k : Nat) : ([] : List Nat).getD k 1 = 1 := by
   simp [List.getD]
 
 theorem npRule_nil_left (ys r : List Nat) : NpRule [] ys r ↔ r = ys := by
@@ -85,7 +85,9 @@ theorem npRule_nil_right (xs r : List Nat) : NpRule xs [] r ↔ r = xs := by
   · rintro rfl
     refine ⟨by simp, fun k => ⟨?_, ?_⟩⟩
     · right; right; exact getD_nil k
-    · simp only [getD_nil]; split <;> simp_all
+    · simp only [getD_nil]; split
+      · rename_i h3; exact h3
+      · rfl
 
 theorem npRule_cons (x y : Nat) (xs ys r : List Nat) :
     NpRule (x :: xs) (y :: ys) r ↔
@@ -93,7 +95,7 @@ theorem npRule_cons (x y : Nat) (xs ys r : List Nat) :
   constructor
   · rintro ⟨hl, h⟩
     cases r with
-    | nil => simp at hl; omega
+    | nil => simp at hl
     | cons z r' =>
       refine ⟨z, r', rfl, ?_, ?_, ?_, ?_⟩
       · simpa [getD_cons_zero] using (h 0).1
@@ -108,6 +110,55 @@ theorem npRule_cons (x y : Nat) (xs ys r : List Nat) :
     | zero => simp only [getD_cons_zero]; exact ⟨h0, hz⟩
     | succ k => simp only [getD_cons_succ]; exact h k
 
+/-- the per-axis step of the loop -/
+def axisRule (x y : Nat) : Option Nat :=
+  if x = y then some x else if x = 1 then some y else if y = 1 then some x else none
+
+theorem axisRule_iff (x y z : Nat) :
+    axisRule x y = some z ↔ (x = y ∨ x = 1 ∨ y = 1) ∧ z = (if x = 1 then y else x) := by
+  unfold axisRule
+  grind
+
+/-- prepend an axis result to a shape result -/
+def consO (a : Option Nat) (r : Option (List Nat)) : Option (List Nat) :=
+  match r, a with
+  | some r, some z => some (z :: r)
+  | _, _ => none
+
+theorem bcastRev_cons (x y : Nat) (xs ys : List Nat) :
+    bcastRev (x :: xs) (y :: ys) = consO (axisRule x y) (bcastRev xs ys) := by
+  simp only [bcastRev, axisRule, consO]
+  cases bcastRev xs ys with
+  | none => rfl
+  | some r => grind
+
+theorem axisRule_one_left (y : Nat) : axisRule 1 y = some y := by unfold axisRule; grind
+theorem axisRule_one_right (x : Nat) : axisRule x 1 = some x := by unfold axisRule; grind
+theorem axisRule_ne_one (a b : Nat) (ha : a ≠ 1) (hb : b ≠ 1) :
+    axisRule a b = if a = b then some a else none := by unfold axisRule; grind
+
+theorem axisRule_assoc (x y z : Nat) :
+    (axisRule x y).bind (fun r => axisRule r z) = (axisRule y z).bind (fun r => axisRule x r) := by
+  by_cases hx : x = 1
+  · subst hx
+    simp only [axisRule_one_left, Option.bind_some]
+    cases axisRule y z <;> simp [axisRule_one_left]
+  · by_cases hy : y = 1
+    · subst hy; simp [axisRule_one_left, axisRule_one_right]
+    · by_cases hz : z = 1
+      · subst hz
+        simp only [axisRule_one_right, Option.bind_some]
+        cases axisRule x y <;> simp [axisRule_one_right]
+      · rw [axisRule_ne_one x y hx hy, axisRule_ne_one y z hy hz]
+        by_cases hxy : x = y
+        · subst hxy
+          by_cases hyz : x = z
+          · subst hyz; simp [axisRule_ne_one x x hx hx]
+          · simp [hyz, axisRule_ne_one x z hx hz]
+        · by_cases hyz : y = z
+          · subst hyz; simp [hxy, axisRule_ne_one x y hx hy]
+          · simp [hxy, hyz]
+
 /-- `bcastRev` (the loop of `Qube.broadcasted_shape`) computes exactly NumPy's rule; it fails exactly when no
     shape satisfies the rule. -/
 theorem bcastRev_spec (xs ys r : List Nat) : bcastRev xs ys = some r ↔ NpRule xs ys r := by
@@ -117,43 +168,21 @@ theorem bcastRev_spec (xs ys r : List Nat) : bcastRev xs ys = some r ↔ NpRule 
     cases ys with
     | nil => simp [bcastRev, npRule_nil_right, eq_comm]
     | cons y ys =>
-      rw [npRule_cons]
-      simp only [bcastRev]
-      cases hb : bcastRev xs ys with
-      | none =>
-        simp only [reduceCtorEq, false_iff]
-        rintro ⟨z, r', -, -, -, h⟩
-        have := (ih ys r').2 h
-        rw [hb] at this; cases this
-      | some r0 =>
-        have h0 := (ih ys r0).1 hb
-        constructor
-        · intro h
-          by_cases h1 : x = y
-          · subst h1
-            simp only [if_true, Option.some.injEq] at h
-            exact ⟨x, r0, h.symm, Or.inl rfl, by split <;> simp_all, h0⟩
-          · by_cases hx : x = 1
-            · simp only [h1, hx, if_false, if_true, Option.some.injEq] at h
-              exact ⟨y, r0, h.symm, Or.inr (Or.inl hx), by simp [hx], h0⟩
-            · by_cases hy : y = 1
-              · simp only [h1, hx, hy, if_false, if_true, Option.some.injEq] at h
-                exact ⟨x, r0, h.symm, Or.inr (Or.inr hy), by simp [hx], h0⟩
-              · simp [h1, hx, hy] at h
-        · rintro ⟨z, r', rfl, hc, hz, h⟩
-          have : r' = r0 := by
-            have := (ih ys r').2 h
-            rw [hb] at this; exact (Option.some.inj this).symm
-          subst this
-          by_cases h1 : x = y
-          · subst h1; simp only [if_true]; congr 2; split at hz <;> simp_all
-          · by_cases hx : x = 1
-            · simp only [h1, hx, if_false, if_true] at hz ⊢; rw [hz]
-            · simp only [hx, if_false] at hz
-              rcases hc with hc | hc | hc
-              · exact absurd hc h1
-              · exact absurd hc hx
-              · simp only [h1, hx, hc, if_false, if_true]; rw [hz]
+      rw [npRule_cons, bcastRev_cons]
+      constructor
+      · intro h
+        cases hb : bcastRev xs ys with
+        | none => rw [hb] at h; cases h
+        | some r0 =>
+          cases ha : axisRule x y with
+          | none => rw [hb, ha] at h; cases h
+          | some z =>
+            rw [hb, ha] at h
+            simp only [consO, Option.some.injEq] at h
+            have := (axisRule_iff x y z).1 ha
+            exact ⟨z, r0, h.symm, this.1, this.2, (ih ys r0).1 hb⟩
+      · rintro ⟨z, r', rfl, hc, hz, h⟩
+        rw [(ih ys r').2 h, (axisRule_iff x y z).2 ⟨hc, hz⟩]; rfl
 
 theorem bcastRev_none_iff (xs ys : List Nat) : bcastRev xs ys = none ↔ ∀ r, ¬ NpRule xs ys r := by
   constructor
@@ -183,23 +212,21 @@ theorem bcastRev_append (t u s s' : List Nat) (h : t.length = u.length) :
     | nil => simp at h
     | cons y u =>
       have hl : t.length = u.length := by simpa using h
-      simp only [List.cons_append, bcastRev, ih u hl]
-      cases bcastRev t u <;> cases bcastRev s s' <;> simp only []
-      all_goals (split <;> try rfl)
-      all_goals (split <;> try rfl)
-      all_goals (split <;> try rfl)
+      simp only [List.cons_append, bcastRev_cons, ih u hl]
+      cases bcastRev t u <;> cases bcastRev s s' <;> cases axisRule x y <;> rfl
 
 theorem bcastRev_self (t : List Nat) : bcastRev t t = some t := by
   induction t with
   | nil => rfl
-  | cons x t ih => simp [bcastRev, ih]
+  | cons x t ih =>
+    have : axisRule x x = some x := by unfold axisRule; simp
+    simp [bcastRev_cons, ih, this, consO]
 
 theorem bcastRev_ones_right (t : List Nat) : bcastRev t (List.replicate t.length 1) = some t := by
   induction t with
   | nil => rfl
   | cons x t ih =>
-    simp only [List.length_cons, List.replicate_succ, bcastRev, ih]
-    by_cases h : x = 1 <;> simp [h]
+    simp only [List.length_cons, List.replicate_succ, bcastRev_cons, ih, axisRule_one_right]; rfl
 
 theorem bcastRev_ones_left (t : List Nat) : bcastRev (List.replicate t.length 1) t = some t := by
   rw [bcastRev_comm]; exact bcastRev_ones_right t
@@ -217,34 +244,19 @@ theorem bcastRev_assoc (xs ys zs : List Nat) :
         simp only [bcastRev_nil_right, Option.bind_some]
         cases bcastRev (x :: xs) (y :: ys) <;> simp [bcastRev_nil_right]
       | cons z zs =>
-        have ih' := ih ys zs
-        simp only [bcastRev]
-        cases h1 : bcastRev xs ys with
-        | none =>
-          rw [h1] at ih'
-          simp only [Option.bind_none] at ih' ⊢
-          cases h2 : bcastRev ys zs with
-          | none => simp
-          | some q =>
-            rw [h2] at ih'
-            simp only [Option.bind_some] at ih'
-            by_cases a1 : y = z <;> by_cases a2 : y = 1 <;> by_cases a3 : z = 1 <;>
-              simp [a1, a2, a3, bcastRev, ← ih']
-        | some p =>
-          rw [h1] at ih'
-          simp only [Option.bind_some] at ih'
-          cases h2 : bcastRev ys zs with
-          | none =>
-            rw [h2] at ih'
-            simp only [Option.bind_none] at ih'
-            by_cases a1 : x = y <;> by_cases a2 : x = 1 <;> by_cases a3 : y = 1 <;>
-              simp [a1, a2, a3, bcastRev, ih']
-          | some q =>
-            rw [h2] at ih'
-            simp only [Option.bind_some] at ih'
-            by_cases a1 : x = y <;> by_cases a2 : x = 1 <;> by_cases a3 : y = 1 <;>
-              by_cases a4 : y = z <;> by_cases a5 : z = 1 <;> by_cases a6 : x = z <;>
-              simp_all [bcastRev] <;> (cases bcastRev xs q <;> simp_all) <;> omega
+        have e1 : ∀ (a : Option Nat) (r : Option (List Nat)),
+            (consO a r).bind (fun l => bcastRev l (z :: zs)) =
+              consO (a.bind (fun w => axisRule w z)) (r.bind (fun l => bcastRev l zs)) := by
+          intro a r
+          cases a <;> cases r <;> simp [consO, bcastRev_cons]
+          all_goals (first | rfl | (cases bcastRev _ zs <;> rfl))
+        have e2 : ∀ (b : Option Nat) (q : Option (List Nat)),
+            (consO b q).bind (fun l => bcastRev (x :: xs) l) =
+              consO (b.bind (fun w => axisRule x w)) (q.bind (fun l => bcastRev xs l)) := by
+          intro b q
+          cases b <;> cases q <;> simp [consO, bcastRev_cons]
+          all_goals (first | rfl | (cases bcastRev xs _ <;> rfl))
+        rw [bcastRev_cons, bcastRev_cons, e1, e2, ih ys zs, axisRule_assoc]
 
 /-! ### index projection, reversed -/
 
@@ -279,7 +291,7 @@ theorem bidxRev_length (s i : List Nat) : (bidxRev s i).length = min s.length i.
   | cons n s ih =>
     cases i with
     | nil => simp [bidxRev]
-    | cons a i => simp [bidxRev, ih i]; omega
+    | cons a i => simp [bidxRev, ih i]
 
 /-- validity on reversed lists -/
 def ValidRev : List Nat → List Nat → Prop
@@ -369,7 +381,9 @@ theorem bidxRev_self {t j : List Nat} (h : Valid t j) : bidxRev t j = j := by
       simp only [Valid] at h
       simp only [bidxRev, ih h.2]
       split
-      · rename_i h1; subst h1; congr; omega
+      · rename_i h1; subst h1
+        have : a = 0 := by omega
+        rw [this]
       · rfl
 
 /-- an index valid for the broadcast result projects onto a valid index of the left operand (reversed form) -/
@@ -390,30 +404,29 @@ theorem bidxRev_valid {xs ys r i : List Nat} (hb : bcastRev xs ys = some r) (hv 
         refine ⟨by split <;> omega, ?_⟩
         exact ih (ys := []) (bcastRev_nil_right xs) hv.2
     | cons y ys =>
-      simp only [bcastRev] at hb
+      rw [bcastRev_cons] at hb
       cases h1 : bcastRev xs ys with
       | none => rw [h1] at hb; cases hb
       | some r0 =>
-        rw [h1] at hb
-        simp only [] at hb
-        have key : ∃ z, r = z :: r0 ∧ (x = 1 ∨ x = z) := by
-          by_cases a1 : x = y
-          · subst a1; simp at hb; exact ⟨x, hb.symm, Or.inr rfl⟩
-          · by_cases a2 : x = 1
-            · simp [a1, a2] at hb; exact ⟨y, hb.symm, Or.inl a2⟩
-            · by_cases a3 : y = 1
-              · simp [a1, a2, a3] at hb; exact ⟨x, hb.symm, Or.inr rfl⟩
-              · simp [a1, a2, a3] at hb
-        obtain ⟨z, rfl, hz⟩ := key
-        cases i with
-        | nil => simp [Valid] at hv
-        | cons a i =>
-          simp only [Valid] at hv
-          simp only [bidxRev, Valid]
-          refine ⟨?_, ih h1 hv.2⟩
-          rcases hz with hz | hz
-          · simp [hz]
-          · subst hz; split <;> omega
+        cases ha : axisRule x y with
+        | none => rw [h1, ha] at hb; cases hb
+        | some z =>
+          rw [h1, ha] at hb
+          simp only [consO, Option.some.injEq] at hb
+          subst hb
+          have hz := (axisRule_iff x y z).1 ha
+          cases i with
+          | nil => simp [Valid] at hv
+          | cons a i =>
+            simp only [Valid] at hv
+            simp only [bidxRev, Valid]
+            refine ⟨?_, ih h1 hv.2⟩
+            have h2 := hz.2
+            split
+            · omega
+            · rename_i hx1
+              rw [if_neg hx1] at h2
+              omega
 
 /-! ### statements on shapes in NumPy order -/
 
@@ -474,9 +487,7 @@ theorem bidx_valid {a b out : Shape} {i : Index} (hb : bcast a b = some out) (hv
     simpa using this
   have := bidxRev_valid hq hv'
   simp only [bidx]
-  have h2 := (valid_reverse a.reverse (bidxRev a.reverse i.reverse)).1
-  simp only [List.reverse_reverse] at h2
-  exact h2 this
+  exact (valid_reverse a (bidxRev a.reverse i.reverse).reverse).1 (by simpa using this)
 
 theorem bidx_valid_right {a b out : Shape} {i : Index} (hb : bcast a b = some out) (hv : Valid out i) :
     Valid b (bidx b i) := bidx_valid (by rw [bcast_comm]; exact hb) hv
